@@ -441,7 +441,7 @@ def _set_op(op, coll, items, other_coll, is_model):
         return lambda: coll.clear()
     if name in SET_MUT_ITER or name in SET_READ:
         return lambda: getattr(coll, name)(_set_arg(op[1], items, coll, other_coll))
-    if name == "update_multi":  # pinned only: set.update(*others) takes any number of arguments
+    if name == "update_multi":  # set.update(*others) takes any number of arguments
         return lambda: coll.update(_set_arg(["list", op[1]], items, coll, other_coll), _set_arg(["list", op[2]], items, coll, other_coll))
     if name in SET_IOPS:
         f = {"ior": o.ior, "iand": o.iand, "isub": o.isub, "ixor": o.ixor}[name]
@@ -538,8 +538,10 @@ def _set_programs(draw):
     ops = []
     for _ in range(draw(st.integers(1, 25))):
         name = draw(st.sampled_from(["add", "remove", "discard", "pop", "clear", "contains", "len", "copy", "replace"] + SET_MUT_ITER * 2 + SET_IOPS * 2 + SET_READ
-                                    + ["or", "and", "sub", "xor", "le", "ge", "eq"]))
-        if name in ("add", "remove", "discard", "contains"):
+                                    + ["or", "and", "sub", "xor", "le", "ge", "eq", "update_multi"]))
+        if name == "update_multi":  # set.update(*others): repaired in /repo (4fe7f6e), generated again
+            ops.append([name, draw(st.lists(_item, max_size=3)), draw(st.lists(_item, max_size=3))])
+        elif name in ("add", "remove", "discard", "contains"):
             ops.append([name, draw(_item)])
         elif name in ("pop", "clear", "len", "copy"):
             ops.append([name])
